@@ -162,9 +162,14 @@ def run(ctx):
         ok = len(fin) == 1 and bool(okrows) and all(any(re.match(r"^is_ok\(.*Accumulator::finish\(.*\)\)=True$", a) for a in c) for c, v in okrows) \
             and all(re.match(r"^core::result::Result::Err\{\(.*Accumulator::finish\(.*\) as Err\)\.0\}$", v) for c, v in other)
         ctx.ob("C02.P.body-fields-finish", f.key, "finish()? before Ok", ok, "finish calls %d, Ok rows %d, other rows %s" % (len(fin), len(okrows), [v[:100] for c, v in other]))
-        cl = ctx.closures_of(f)
-        handles = [c.key for c in cl if ctx.find_calls(c, r"Accumulator::handle") and ctx.find_calls(c, r"FromField>::from_field$")]
-        ctx.ob("C02.P.body-fields-handle", f.key, "handle(from_field(f)) per field (named and unnamed)", len(handles) == 2, "closures handling fields: %s" % handles)
+        conv = {id(h["t"]) for h in ctx.per_element(f, r"FromField(>)?::from_field$", helpers=1)}
+        viahelp = [h["via"].key for h in ctx.per_element(f, r"FromField(>)?::from_field$", helpers=1) if h.get("via")]
+        handles = []
+        for h in ctx.per_element(f, r"Accumulator::handle$"):
+            e = ctx.expr(h["owner"], h["t"]["args"][1])
+            if h["form"] in ("adapter", "loop") and (re.search(r"FromField(>)?::from_field\(", e) or any(k + "(" in e for k in viahelp)):
+                handles.append(re.sub(r".*iter\(", "iter(", h["source"]))
+        ctx.ob("C02.P.body-fields-handle", f.key, "handle(from_field(f)) per field (named and unnamed)", sorted(handles) == ["iter((a1 as Named).0.named)", "iter((a1 as Unnamed).0.unnamed)"], "field conversions handled per element of: %s" % handles)
     for key in ("darling_core::options::ParseData::parse_body", "darling_core::options::ParseAttribute::parse_attributes"):
         f = ctx.fn(key)
         if f:
